@@ -287,6 +287,8 @@ func init() {
 	regBridge("unicode.IsLower", unicode.IsLower)
 	regBridge("unicode.IsLetter", unicode.IsLetter)
 	regBridge("unicode.IsDigit", unicode.IsDigit)
+	regBridge("unicode.IsNumber", unicode.IsNumber)
+	regBridge("unicode.IsPunct", unicode.IsPunct)
 	regBridge("unicode.IsSpace", unicode.IsSpace)
 	regBridge("unicode.ToUpper", unicode.ToUpper)
 	regBridge("unicode.ToLower", unicode.ToLower)
